@@ -1226,6 +1226,8 @@ def check_connections(res, rng, tier, model_ok):
 
 
 def explore(res, tier, seed, model_ok=True):
+    import gencheck   # differential test of the translated code (Generated/Code.lean) against the original Python
+    gencheck.run(res, 'C06', tier, seed, model_ok)
     rng = random.Random(seed)
     res.rule = ('A: zlib streams (levels 0/1/6/9 x 5 strategies x windows 9..15 x sync/full/partial/block flush sequences), hand-encoded stored/fixed/dynamic blocks incl. '
                 'odd code sets, every truncation, corruptions, BFINAL + trailing data, distances at the window edge: Lean inflater vs zlib. '
